@@ -787,7 +787,7 @@ theorem Inv.handler_move {s : St} (h : Inv s) (t : Tid) (f : Th → Th) (s' : St
     · subst h1; intro _; exact h.own a hh
     · rw [en a h1]; exact h.own a
 /-- writing `*elem` of any operation keeps the invariant and the handler's view of itself -/
-theorem elem_frame {s : St} (h : Inv s) (u : Tid) (v : Option Nat) (t : Tid) :
+theorem elem_frame {s : St} (h : Inv s) (u : Tid) (v : Option Elem) (t : Tid) :
     Inv (s.modTh u (fun x => { x with elem := v })) ∧
     ((s.modTh u (fun x => { x with elem := v })).ths t).pc = (s.ths t).pc ∧
     ((s.modTh u (fun x => { x with elem := v })).ths t).rem = (s.ths t).rem ∧
@@ -1024,7 +1024,7 @@ theorem step_p2Adv (s : St) (t : Tid) (h : Inv s) (hpc : (s.ths t).pc = .p2Adv) 
 def unwinds (s : St) (t : Tid) : Bool :=
   match (s.ths t).pc, (s.ths t).rem with
   | .p1Load, u :: _ => popThrows (s.ths u).op && shortcut s.heap && !guarded
-  | .p2Load, u :: _ => popThrows (s.ths u).op && !(s.heap.data.length == 0) && !guarded
+  | .p2Load, u :: _ => popThrows (s.ths u).op && !(isEmpty2 s.heap) && !guarded
   | _, _ => false
 
 /-- the invariant is inductive (as long as no pop's element assignment throws) -/
